@@ -122,32 +122,52 @@ pub fn ord_float_literals() {
 
 /// NumOrd between EVERY one-word integer (sign given) and a LITERAL float given by its bits: the float's
 /// decoded exponent is a constant, so the shifts inside the comparison are by constant amounts.
-/// Expected order: exact, from the float's (mantissa, exponent) with |exponent| <= 60.
-pub fn ord_float_semi(neg: bool, fbits: u32) {
+/// Expected order: exact, from the float's (mantissa, exponent); the table keeps -60 <= exponent <= 60 or
+/// |float| < 2^-60.
+pub fn ord_float_semi(neg: bool, is64: bool, bits: u64) {
     let v: Word = nd::any();
     let x = if v == 0 { ibig(POS, &[]) } else { ibig(if neg { NEG } else { POS }, &[v]) };
-    let f = f32::from_bits(fbits);
     let xi: i128 = if neg { -(v as i128) } else { v as i128 };
-    // exact value of f = m * 2^e
-    let expf = ((fbits >> 23) & 0xff) as i32;
-    let frac = (fbits & 0x7fffff) as i128;
-    let (m, e) = if expf == 0 { (frac, -149) } else { (frac | (1 << 23), expf - 150) };
-    let m = if fbits >> 31 == 1 { -m } else { m };
-    let want = if expf == 0xff {
-        if frac != 0 { None } else if m < 0 { Some(Ordering::Greater) } else { Some(Ordering::Less) }
-    } else if e >= 0 {
-        Some(xi.cmp(&(m << (e as u32)))) // e <= 40 by the table
-    } else if -e <= 60 {
-        Some((xi << ((-e) as u32)).cmp(&m)) // |xi| < 2^64, shift <= 60: fits i128
+    // exact value of the float = m * 2^e
+    let (sign_bit, expf, frac, emax, mbits, bias) = if is64 {
+        (bits >> 63 == 1, ((bits >> 52) & 0x7ff) as i32, (bits & ((1 << 52) - 1)) as i128, 0x7ff, 52, 1075)
     } else {
-        // |f| < 2^-36: compare with zero, then by sign
+        (bits >> 31 == 1, ((bits >> 23) & 0xff) as i32, (bits & 0x7fffff) as i128, 0xff, 23, 150)
+    };
+    let (m, e) = if expf == 0 { (frac, 1 - bias) } else { (frac | (1 << mbits), expf - bias) };
+    let m = if sign_bit { -m } else { m };
+    let want = if expf == emax {
+        if frac != 0 {
+            None
+        } else if m < 0 {
+            Some(Ordering::Greater)
+        } else {
+            Some(Ordering::Less)
+        }
+    } else if e >= 0 {
+        Some(xi.cmp(&(m << (e as u32))))
+    } else if -e <= 60 {
+        Some((xi << ((-e) as u32)).cmp(&m))
+    } else {
+        // |float| < 2^-7: zero, or strictly between 0 and +-1
         Some(if m == 0 { xi.cmp(&0) } else if xi == 0 { 0.cmp(&m) } else { xi.cmp(&0) })
     };
-    assert!(x.num_partial_cmp(&f) == want, "IBig vs f32 order differs from the exact order");
-    assert!(f.num_partial_cmp(&x) == want.map(|o| o.reverse()), "f32 vs IBig order differs from the exact order");
-    if !neg {
-        let u = if v == 0 { ubig(&[]) } else { ubig(&[v]) };
-        assert!(u.num_partial_cmp(&f) == want, "UBig vs f32 order differs from the exact order");
+    if is64 {
+        let f = f64::from_bits(bits);
+        assert!(x.num_partial_cmp(&f) == want, "IBig vs f64 order differs from the exact order");
+        assert!(f.num_partial_cmp(&x) == want.map(|o| o.reverse()), "f64 vs IBig order differs from the exact order");
+        if !neg {
+            let u = if v == 0 { ubig(&[]) } else { ubig(&[v]) };
+            assert!(u.num_partial_cmp(&f) == want, "UBig vs f64 order differs from the exact order");
+        }
+    } else {
+        let f = f32::from_bits(bits as u32);
+        assert!(x.num_partial_cmp(&f) == want, "IBig vs f32 order differs from the exact order");
+        assert!(f.num_partial_cmp(&x) == want.map(|o| o.reverse()), "f32 vs IBig order differs from the exact order");
+        if !neg {
+            let u = if v == 0 { ubig(&[]) } else { ubig(&[v]) };
+            assert!(u.num_partial_cmp(&f) == want, "UBig vs f32 order differs from the exact order");
+        }
     }
 }
 
